@@ -174,7 +174,7 @@ func runTree(pats, probes []string) (res SL, elems []string, npat int) {
 func famTree(o *Out, r R, tier string) {
 	nlists, maxPerm := 700, 3
 	if tier == "thorough" {
-		nlists, maxPerm = 12000, 5
+		nlists, maxPerm = 3000, 4
 	}
 	emit := func(kind string, pats []string) {
 		var probes []string
@@ -208,6 +208,17 @@ func famTree(o *Out, r R, tier string) {
 	for _, c := range corpus {
 		for _, p := range permutations(c) {
 			emit("corpus", p)
+		}
+	}
+	if tier == "thorough" { // every permutation of some 5-element lists
+		for i := 0; i < 40; i++ {
+			pats := make([]string, 5)
+			for j := range pats {
+				pats[j] = genPattern(r)
+			}
+			for _, p := range permutations(pats) {
+				emit("perm5", p)
+			}
 		}
 	}
 	for i := 0; i < nlists; i++ {
